@@ -198,6 +198,12 @@ def verify_function(contract, registry, label_prefix="", feas_timeout_ms=250):
         rep.error, rep.error_kind = str(e), "unsupported"
     except RecursionError as e:
         rep.error, rep.error_kind = f"recursion: {e}", "unsupported"
+    except (AttributeError, TypeError, KeyError, IndexError, z3.Z3Exception) as e:
+        # a specification helper or a model met a value shape it was not written for (typically on restructured code): the function is
+        # outside what this contract can decide -- undecided with the reason attached, never a verdict
+        import traceback as _tb
+        where = _tb.extract_tb(e.__traceback__)[-1]
+        rep.error, rep.error_kind = f"contract not applicable to this code shape ({type(e).__name__}: {e} at {where.filename.split('/')[-1]}:{where.lineno})", "unsupported"
     rep.wall = time.time() - t0
     return rep
 
